@@ -130,8 +130,11 @@ def run(ctx, chk):
                     okg = okg and gset(p.guards) == {want}
                     Np = an.norm_of(p)
                     nv = Np(v)
-                    exp = ("bin", "BitXor", me, ("bin", "Sub", ("bin", "Shl", I(1, "usize"), m), I(1, "usize")))
-                    okg = okg and nv == exp
+                    MAXW = I(18446744073709551615, "usize")
+                    # the low m bits set, for m < 64: (1 << m) - 1, or the complement of the all-ones word shifted up by m
+                    masks = (("bin", "Sub", ("bin", "Shl", I(1, "usize"), m), I(1, "usize")),
+                             ("un", "Not", ("bin", "Shl", MAXW, m)), ("bin", "BitXor", ("bin", "Shl", MAXW, m), MAXW), ("bin", "BitXor", MAXW, ("bin", "Shl", MAXW, m)))
+                    okg = okg and any(nv in (("bin", "BitXor", me, mk), ("bin", "BitXor", mk, me)) for mk in masks)
                 else:
                     seen_full = True
                     want = cmp(m, "Ge", c(64))
